@@ -49,7 +49,7 @@ def mandatory_bins(tier):
     b = ["blocks_" + "+".join(l) for l in GB.all_block_lists()]
     b += ["session_key_drawn", "all_blocks_wrap_the_mac_key", "pass_through_rewrite", "rewrite_known_blocks_same_key", "creations_without_key", "counting_rng",
           "ecc_wrap", "ecc_rewrite_same_object", "ephemeral_points_distinct", "splice_accepted_when_keys_equal", "splice_body_under_first_key", "splice_body_under_second_key", "splice_triple", "splice_partial_decryptor_set", "splice_unopened_block_between", "read_with_encrypt_only_ecc_encryptor", "content_of_a_read_file_rewritten_under_a_fresh_key", "encrypted_component_under_the_wrapped_key", "foreign_blocks_of_unknown_kind"]
-    b += ["splice_%s_%s" % (a, c) for a in GB.KINDS for c in GB.KINDS] + ["splice_two_ecc_blocks_for_two_selectors"]
+    b += ["splice_%s_%s" % (a, c) for a in GB.KINDS for c in GB.KINDS] + ["splice_two_ecc_blocks_for_two_selectors", "splice_block_wraps_a_prefix_of_the_key"]
     return b
 
 
@@ -445,6 +445,29 @@ def run_splice(ns, ctx, spec):
                 ctx.bin("splice_body_under_first_key" if body_first else "splice_body_under_second_key")
                 if res is not None:
                     ctx.violation("file_whose_blocks_wrap_different_keys_accepted", {"kinds": kinds, "odd_block": odd, "body_under": "k1" if body_first else "k2", "returned_key": res.session_key}, rp)
+        if idx % 3 == 1:
+            # a customer-key block whose container holds only a PREFIX of the key the other block wraps (0, 1, 4, 15 bytes):
+            # the unwrapped keys differ (in length), so the file must be rejected just the same
+            other = ("update", "ecc")[(idx // 3) % 2]
+            order = ("cust", other) if (idx // 6) % 2 else (other, "cust")
+            sp = GB.gen_blocks(rng, order)
+            for s_ in sp:
+                if s_["kind"] == "cust":
+                    s_["ck"], s_["pos"] = None, None
+            k = (0, 1, 4, 15)[(idx // 12) % 4]
+            blocks = [(GB.TAGS[s_["kind"]], container.wrap(s_["key"], k1[:k]) if s_["kind"] == "cust" else model_block(rng, s_, k1)) for s_ in sp]
+            text = L.text_of(case.comments, L.serialise_bec2(case.comps, k1, blocks))
+            ctx.ev()
+            ctx.bin("splice_block_wraps_a_prefix_of_the_key")
+            ctx.distinct("splice_prefix", idx, k)
+            for cm in (True, False):
+                try:
+                    res = B.Bec2File.read_file(io.StringIO(text), GB.read_encryptors(ns, sp), cm)
+                    ctx.violation("file_whose_blocks_wrap_different_keys_accepted:shorter_key_that_is_a_prefix", {"kinds": order, "prefix_len": k, "check_cmac": cm, "returned_key": res.session_key},
+                                  {"kind": "splice", "blocks": GB.spec_json(sp), "k1": k1.hex(), "prefix_len": k})
+                except Exception as e:
+                    ctx.exc(e)
+                ctx.mon("reader_decision_on_splice")
         if j == 0:
             ctx.sample({"kind": "splice", "blocks": list(kinds), "odd_block": odd})
 
